@@ -5,11 +5,14 @@ import Drv.Common
 Line-protocol driver for C05 (state = the current class).
 
   cls <key>                     select a generated class table (`genClasses`)          → ok | unknown-class
-  syn inst=<I> mro=<T>|<T>|…    select a synthetic class given on the line              → ok
+  syn inst=<I> sigs=<L> consts=<L> ga=<b> mro=<T>|<T>|…   select a synthetic class given on the line → ok
+        L = `-` | name,name,…     ga = some class overrides __getattribute__
         I = `-` | name:<b>,name:<b>,…       T = `-` | name:<kind>,name:<kind>,…
         kind = f<m><d> | s<m><d> | c<m><d> | p | n | d | o<m> | k        (<m>,<d>,<b> ∈ {0,1})
   q <name>                      → adv=<b> inv=<b> eff=<none|called> reply=<unknown|result> decl=<b>
-  ctor                          → ok <k> | exc:QMI_UsageException
+  ctor                          → ok <k> | exc:QMI_UsageException | exc:AssertionError
+  h <lock> <tok> <name>         whole request handler; lock/tok = `-` | token id  → reply=<unknown|result|locked> eff=<none|called|attr>
+  proxy                         → ok <stub names sorted> | exc:AttributeError | noctor
   adv                           → advertised names, sorted by code points, space separated (`-` if none)
   wf                            → wf=1 | wf=0 bad=<names>
 
@@ -90,14 +93,23 @@ def parseEntries {β : Type} (pv : String → Option β) (s : String) : Option (
 def stripPrefix (p s : String) : Option String :=
   if s.startsWith p then some (String.ofList (s.toList.drop p.length)) else none
 
+def parseNames (s : String) : Option (List Name) :=
+  if s == "-" then some [] else (s.splitOn ",").mapM parseName
+
 def parseSyn (toks : List String) : Option RpcClass :=
   match toks with
-  | [i, m] => do
+  | [i, sg, cs, ga, m] => do
     let i ← (stripPrefix "inst=" i) >>= parseEntries parseBit
+    let sg ← (stripPrefix "sigs=" sg) >>= parseNames
+    let cs ← (stripPrefix "consts=" cs) >>= parseNames
+    let ga ← (stripPrefix "ga=" ga) >>= parseBit
     let m ← stripPrefix "mro=" m
     let ts ← (m.splitOn "|").mapM (parseEntries parseKind)
-    pure { mro := ts, inst := i }
+    pure { mro := ts, inst := i, sigs := sg, consts := cs, getattributeOverride := ga }
   | _ => none
+
+def parseTok (s : String) : Option (Option Token) :=
+  if s == "-" then some none else s.toNat?.map some
 
 def b2s (b : Bool) : String := if b then "1" else "0"
 
@@ -109,6 +121,7 @@ def query (C : RpcClass) (n : Name) : String :=
   let rep := match reply C n with
     | .unknownRpc => "unknown"
     | .methodResult => "result"
+    | .objectLocked => "locked"
   s!"adv={b2s (decide (n ∈ advertised C))} inv={b2s (invokable C n)} eff={eff} reply={rep} decl={b2s (declared C n)}"
 
 def stepLine (cur : Option RpcClass) (line : String) : Option RpcClass × String :=
@@ -131,6 +144,30 @@ def stepLine (cur : Option RpcClass) (line : String) : Option RpcClass × String
       match construct C with
       | .ok ms => (cur, s!"ok {ms.length}")
       | .error .usage => (cur, "exc:QMI_UsageException")
+      | .error .assertion => (cur, "exc:AssertionError")
+      | .error .attributeError => (cur, "exc:AttributeError")
+    | none => (cur, "bad-op")
+  | ["h", l, t, name] =>
+    match cur, parseTok l, parseTok t, parseName name with
+    | some C, some lock, some tok, some n =>
+      let (r, e) := handle C lock tok n
+      let rs := match r with | .unknownRpc => "unknown" | .methodResult => "result" | .objectLocked => "locked"
+      let es := match e with
+        | [] => "none"
+        | [.called _] => "called"
+        | [.attrCodeRan _] => "attr"
+        | _ => "multi"
+      (cur, s!"reply={rs} eff={es}")
+    | _, _, _, _ => (cur, "bad-op")
+  | ["proxy"] =>
+    match cur with
+    | some C =>
+      match construct C with
+      | .ok ms =>
+        match proxyBuild ms C.consts C.sigs with
+        | .ok fs => (cur, s!"ok {showNames fs}")
+        | .error _ => (cur, "exc:AttributeError")
+      | .error _ => (cur, "noctor")
     | none => (cur, "bad-op")
   | ["adv"] =>
     match cur with
